@@ -1,1 +1,246 @@
-(* Props/C01.v -- stub, to be filled in *)
+(* Props/C01.v -- property theorems only: Theorem / exact lemma / Check (pins the statement) / Print Assumptions.
+   Conventions: wf m = (length (buf m) = rows m * cols m); ent m i j = nth (i * cols m + j) (buf m) zero;
+   mvprod n X v r = sum_n n (fun k => X r k * v k), so  "M x = b"  reads
+   forall i < rows M, mvprod (rows M) (ent M) (fun k => nth k x zero) i = nth i b zero. *)
+From Coq Require Import List Arith ZArith Lia.
+From OV Require Import Base.Panic Base.Arith Base.Flat Model.Vector Model.Matrix Model.Solve Inst.QcInst
+  Proofs.Matrix Proofs.SolveBase Proofs.SolveBack Proofs.SolveGauss Proofs.Solve Proofs.SolveComplete Proofs.SolveQc Proofs.SolveR Proofs.SolveC Proofs.SolvePanic Proofs.SolveMul Proofs.SolvePivot Proofs.SolvePivotInst.
+Import ListNotations.
+
+(* C01, Gaussian elimination half: whatever solve_basic returns solves the system (any field, any size). *)
+Theorem solve_basic_sound : forall (A : Arith), FieldLaws A -> forall (M : matrix A) (b x : list A),
+  wf M -> rows M = cols M -> length b = rows M -> solve_basic M b = Ok x ->
+  length x = rows M /\
+  forall i, i < rows M -> mvprod (rows M) (ent M) (fun k => nth k x zero) i = nth i b zero.
+Proof. intros A FL M b x. exact (solve_basic_sound_lemma FL M b x). Qed.
+Check solve_basic_sound : forall (A : Arith), FieldLaws A -> forall (M : matrix A) (b x : list A),
+  wf M -> rows M = cols M -> length b = rows M -> solve_basic M b = Ok x ->
+  length x = rows M /\
+  forall i, i < rows M -> mvprod (rows M) (ent M) (fun k => nth k x zero) i = nth i b zero.
+Print Assumptions solve_basic_sound.
+
+(* non-vacuity: a 3x3 rational system with a zero leading entry; the pivot search exchanges rows at
+   step 0 (row 2) and again at step 1 (row 2); solve_basic returns [1;1;1]  (corpus/C01/two_exchanges_3x3.json) *)
+Definition M3 : matrix AQ := @mkM AQ [q 0 1; q 2 1; q 2 1;  q 1 1; q 1 1; q 1 1;  q 2 1; q 4 1; q 1 1] 3 3.
+Definition b3 : list AQ := [q 4 1; q 3 1; q 7 1].
+Example solve_basic_sound_nonvacuous :
+  wf M3 /\ rows M3 = cols M3 /\ length b3 = rows M3 /\
+  is_ok (solve_basic M3 b3) = true /\
+  fl_res (fl_list flat_q) (solve_basic M3 b3) = [0; 3;  2; 1; 1;  2; 1; 1;  2; 1; 1]%Z /\
+  max_abs_in_column M3 0 0 = Ok 2 /\
+  (let* s := gauss_body 0 (M3, b3) in max_abs_in_column (fst s) 1 1) = Ok 2.
+Proof.
+  split; [reflexivity|]. split; [reflexivity|]. split; [reflexivity|].
+  split; [vm_compute; reflexivity|].
+  split; [vm_compute; reflexivity|]. split; [vm_compute; reflexivity|].
+  vm_compute; reflexivity.
+Qed.
+
+(* The same soundness statement phrased with the code's own product only: the vector returned by solve_basic,
+   multiplied by the matrix with Matrix::multiply (get_row + dot, as modelled in Model/Matrix.v), is b. *)
+Theorem solve_basic_multiply : forall (A : Arith), FieldLaws A -> forall (M : matrix A) (b x : list A),
+  wf M -> rows M = cols M -> length b = rows M -> solve_basic M b = Ok x -> multiply M x = Ok b.
+Proof. intros A FL M b x. exact (solve_basic_multiply_lemma FL M b x). Qed.
+Check solve_basic_multiply : forall (A : Arith), FieldLaws A -> forall (M : matrix A) (b x : list A),
+  wf M -> rows M = cols M -> length b = rows M -> solve_basic M b = Ok x -> multiply M x = Ok b.
+Print Assumptions solve_basic_multiply.
+
+(* A left inverse makes solutions unique (used to assemble solvers_agree from solve_basic_sound and
+   package c02's solve_lu_sound).  left_inverse n N E: forall i j < n, sum_k N i k * E k j = delta i j. *)
+Theorem solutions_unique : forall (A : Arith), FieldLaws A -> forall (M : matrix A) (b x y : list A),
+  (exists N : nat -> nat -> A, left_inverse (rows M) N (ent M)) ->
+  length x = rows M -> length y = rows M ->
+  (forall i, i < rows M -> mvprod (rows M) (ent M) (fun k => nth k x zero) i = nth i b zero) ->
+  (forall i, i < rows M -> mvprod (rows M) (ent M) (fun k => nth k y zero) i = nth i b zero) ->
+  x = y.
+Proof. intros A FL M b x y. exact (solutions_unique_lemma FL M b x y). Qed.
+Check solutions_unique : forall (A : Arith), FieldLaws A -> forall (M : matrix A) (b x y : list A),
+  (exists N : nat -> nat -> A, left_inverse (rows M) N (ent M)) ->
+  length x = rows M -> length y = rows M ->
+  (forall i, i < rows M -> mvprod (rows M) (ent M) (fun k => nth k x zero) i = nth i b zero) ->
+  (forall i, i < rows M -> mvprod (rows M) (ent M) (fun k => nth k y zero) i = nth i b zero) ->
+  x = y.
+Print Assumptions solutions_unique.
+
+(* non-vacuity: M3 has a left inverse (its inverse, det M3 = 6), and [1;1;1] solves M3 x = b3 *)
+Definition N3 : matrix AQ := @mkM AQ [q (-1) 2; q 1 1; q 0 1;  q 1 6; q (-2) 3; q 1 3;  q 1 3; q 2 3; q (-1) 3] 3 3.
+Example M3_left_inverse : left_inverse (rows M3) (ent N3) (ent M3).
+Proof.
+  intros i j Hi Hj. change (rows M3) with 3 in *.
+  destruct i as [|[|[|i]]]; try lia; destruct j as [|[|[|j]]]; try lia;
+    apply Qcanon.Qc_is_canon; vm_compute; reflexivity.
+Qed.
+Definition x3 : list AQ := [q 1 1; q 1 1; q 1 1].
+Example solutions_unique_nonvacuous :
+  (exists N : nat -> nat -> AQ, left_inverse (rows M3) N (ent M3)) /\
+  length x3 = rows M3 /\
+  (forall i, i < rows M3 -> mvprod (rows M3) (ent M3) (fun k => nth k x3 zero) i = nth i b3 zero).
+Proof.
+  split; [exists (ent N3); exact M3_left_inverse|]. split; [reflexivity|].
+  intros i Hi. change (rows M3) with 3 in *.
+  destruct i as [|[|[|i]]]; try lia; apply Qcanon.Qc_is_canon; vm_compute; reflexivity.
+Qed.
+
+(* Completeness (P2).  DESIGN Appendix E states it with MagLaws (abs x = 0 <-> x = 0, ltb irreflexive); that is
+   not enough: with ltb = const false both laws hold and max_abs_in_column never selects a pivot, so
+   solve_basic panics on [[0,1],[1,0]].  The statement therefore takes PivLaws (Proofs/SolveBase.v):
+   abs x = 0 <-> x = 0;  x <> 0 -> ltb 0 (abs x) = true;  ltb (abs x) 0 = false  (met by Q, R and |.| on C).
+   The left inverse is given entrywise as a function N (no well-formedness needed). *)
+Theorem solve_basic_complete : forall (A : Arith), FieldLaws A -> PivLaws A -> forall (M : matrix A) (b : list A),
+  wf M -> rows M = cols M -> length b = rows M -> 1 <= rows M ->
+  (exists N : nat -> nat -> A, left_inverse (rows M) N (ent M)) ->
+  exists x, solve_basic M b = Ok x.
+Proof. intros A FL PL M b. exact (solve_basic_complete_lemma FL PL M b). Qed.
+Check solve_basic_complete : forall (A : Arith), FieldLaws A -> PivLaws A -> forall (M : matrix A) (b : list A),
+  wf M -> rows M = cols M -> length b = rows M -> 1 <= rows M ->
+  (exists N : nat -> nat -> A, left_inverse (rows M) N (ent M)) ->
+  exists x, solve_basic M b = Ok x.
+Print Assumptions solve_basic_complete.
+
+Example solve_basic_complete_nonvacuous :
+  wf M3 /\ rows M3 = cols M3 /\ length b3 = rows M3 /\ 1 <= rows M3 /\
+  (exists N : nat -> nat -> AQ, left_inverse (rows M3) N (ent M3)).
+Proof.
+  split; [reflexivity|]. split; [reflexivity|]. split; [reflexivity|]. split; [cbn; lia|].
+  exists (ent N3). exact M3_left_inverse.
+Qed.
+
+(* Corollaries at Qc, the arithmetic of the exact tier of the correspondence check (AQ_FieldLaws, AQ_PivLaws):
+   a rational system with a left inverse is solved by solve_basic, and the answer is its only solution. *)
+Theorem solve_basic_sound_Qc : forall (M : matrix AQ) (b x : list AQ),
+  wf M -> rows M = cols M -> length b = rows M -> solve_basic M b = Ok x ->
+  length x = rows M /\
+  forall i, i < rows M -> mvprod (rows M) (ent M) (fun k => nth k x zero) i = nth i b zero.
+Proof. exact solve_basic_sound_Qc_lemma. Qed.
+Check solve_basic_sound_Qc : forall (M : matrix AQ) (b x : list AQ),
+  wf M -> rows M = cols M -> length b = rows M -> solve_basic M b = Ok x ->
+  length x = rows M /\
+  forall i, i < rows M -> mvprod (rows M) (ent M) (fun k => nth k x zero) i = nth i b zero.
+Print Assumptions solve_basic_sound_Qc.
+
+Theorem solve_basic_correct_Qc : forall (M : matrix AQ) (b : list AQ),
+  wf M -> rows M = cols M -> length b = rows M -> 1 <= rows M ->
+  (exists N : nat -> nat -> AQ, left_inverse (rows M) N (ent M)) ->
+  exists x, solve_basic M b = Ok x /\ length x = rows M /\
+    (forall i, i < rows M -> mvprod (rows M) (ent M) (fun k => nth k x zero) i = nth i b zero) /\
+    (forall y, length y = rows M ->
+       (forall i, i < rows M -> mvprod (rows M) (ent M) (fun k => nth k y zero) i = nth i b zero) -> y = x).
+Proof. exact solve_basic_correct_Qc_lemma. Qed.
+Check solve_basic_correct_Qc : forall (M : matrix AQ) (b : list AQ),
+  wf M -> rows M = cols M -> length b = rows M -> 1 <= rows M ->
+  (exists N : nat -> nat -> AQ, left_inverse (rows M) N (ent M)) ->
+  exists x, solve_basic M b = Ok x /\ length x = rows M /\
+    (forall i, i < rows M -> mvprod (rows M) (ent M) (fun k => nth k x zero) i = nth i b zero) /\
+    (forall y, length y = rows M ->
+       (forall i, i < rows M -> mvprod (rows M) (ent M) (fun k => nth k y zero) i = nth i b zero) -> y = x).
+Print Assumptions solve_basic_correct_Qc.
+
+(* Corollary over the real numbers (AR of Proofs/SolveR.v: R with Rabs and the classical order/equality tests),
+   the idealisation of the f64 element type: a real system with a left inverse is solved, uniquely.
+   Depends on the standard library's axioms of the reals only (allow-listed). *)
+Theorem solve_basic_correct_R : forall (M : matrix AR) (b : list AR),
+  wf M -> rows M = cols M -> length b = rows M -> 1 <= rows M ->
+  (exists N : nat -> nat -> AR, left_inverse (rows M) N (ent M)) ->
+  exists x, solve_basic M b = Ok x /\ length x = rows M /\
+    (forall i, i < rows M -> mvprod (rows M) (ent M) (fun k => nth k x zero) i = nth i b zero) /\
+    (forall y, length y = rows M ->
+       (forall i, i < rows M -> mvprod (rows M) (ent M) (fun k => nth k y zero) i = nth i b zero) -> y = x).
+Proof. exact solve_basic_correct_R_lemma. Qed.
+Check solve_basic_correct_R : forall (M : matrix AR) (b : list AR),
+  wf M -> rows M = cols M -> length b = rows M -> 1 <= rows M ->
+  (exists N : nat -> nat -> AR, left_inverse (rows M) N (ent M)) ->
+  exists x, solve_basic M b = Ok x /\ length x = rows M /\
+    (forall i, i < rows M -> mvprod (rows M) (ent M) (fun k => nth k x zero) i = nth i b zero) /\
+    (forall y, length y = rows M ->
+       (forall i, i < rows M -> mvprod (rows M) (ent M) (fun k => nth k y zero) i = nth i b zero) -> y = x).
+Print Assumptions solve_basic_correct_R.
+
+(* separator for the driver's parser of Print Assumptions output (an axiom list is followed by a closed block) *)
+Print Assumptions solve_basic_sound.
+
+(* Safety: on a well-formed, conformable, non-empty square system the only panic solve_basic can raise is the
+   zero divisor (no index out of range, no usize underflow, no guard), over any field; and under the
+   magnitude laws a panic certifies that the matrix has no left inverse (third theorem shape of DESIGN 3.3). *)
+Theorem solve_basic_panic_kind : forall (A : Arith), FieldLaws A -> forall (M : matrix A) (b : list A) (k : pkind),
+  wf M -> rows M = cols M -> length b = rows M -> 1 <= rows M ->
+  solve_basic M b = Panic k -> k = DivZero.
+Proof. intros A FL M b k. exact (solve_basic_panic_kind_lemma FL M b k). Qed.
+Check solve_basic_panic_kind : forall (A : Arith), FieldLaws A -> forall (M : matrix A) (b : list A) (k : pkind),
+  wf M -> rows M = cols M -> length b = rows M -> 1 <= rows M ->
+  solve_basic M b = Panic k -> k = DivZero.
+Print Assumptions solve_basic_panic_kind.
+
+Theorem solve_basic_panic_singular : forall (A : Arith), FieldLaws A -> PivLaws A ->
+  forall (M : matrix A) (b : list A) (k : pkind),
+  wf M -> rows M = cols M -> length b = rows M -> 1 <= rows M ->
+  solve_basic M b = Panic k ->
+  k = DivZero /\ ~ exists N : nat -> nat -> A, left_inverse (rows M) N (ent M).
+Proof. intros A FL PL M b k. exact (solve_basic_panic_singular_lemma FL PL M b k). Qed.
+Check solve_basic_panic_singular : forall (A : Arith), FieldLaws A -> PivLaws A ->
+  forall (M : matrix A) (b : list A) (k : pkind),
+  wf M -> rows M = cols M -> length b = rows M -> 1 <= rows M ->
+  solve_basic M b = Panic k ->
+  k = DivZero /\ ~ exists N : nat -> nat -> A, left_inverse (rows M) N (ent M).
+Print Assumptions solve_basic_panic_singular.
+
+(* non-vacuity: a singular 3x3 system whose sub-column at step 1 is zero: the pivot search falls back to its
+   initial index 0, row 0 is exchanged into the active part, and the run ends in the zero-divisor panic
+   (corpus/C01/zero_subcolumn_row0_swap.json) *)
+Definition S3 : matrix AQ := @mkM AQ [q 1 1; q 1 1; q 0 1;  q 1 1; q 1 1; q 1 1;  q 1 1; q 1 1; q 2 1] 3 3.
+Example solve_basic_panic_nonvacuous :
+  wf S3 /\ rows S3 = cols S3 /\ length [q 1 1; q 2 1; q 3 1] = rows S3 /\ 1 <= rows S3 /\
+  solve_basic S3 [q 1 1; q 2 1; q 3 1] = Panic DivZero /\
+  (let* s := gauss_body 0 (S3, [q 1 1; q 2 1; q 3 1]) in max_abs_in_column (fst s) 1 1) = Ok 0.
+Proof.
+  split; [reflexivity|]. split; [reflexivity|]. split; [reflexivity|]. split; [cbn; lia|].
+  split; vm_compute; reflexivity.
+Qed.
+
+(* Corollary over the complex numbers (ACR of Proofs/SolveC.v: Model/Complex.v's own operators -- the code's
+   formulas for * and /, Signed::abs = (|z|, 0), the lexicographic PartialOrd -- over the real instance AR),
+   the idealisation of the Complex<f64> element type. *)
+Theorem solve_basic_correct_C : forall (M : matrix ACR) (b : list ACR),
+  wf M -> rows M = cols M -> length b = rows M -> 1 <= rows M ->
+  (exists N : nat -> nat -> ACR, left_inverse (rows M) N (ent M)) ->
+  exists x, solve_basic M b = Ok x /\ length x = rows M /\
+    (forall i, i < rows M -> mvprod (rows M) (ent M) (fun k => nth k x zero) i = nth i b zero) /\
+    (forall y, length y = rows M ->
+       (forall i, i < rows M -> mvprod (rows M) (ent M) (fun k => nth k y zero) i = nth i b zero) -> y = x).
+Proof. exact solve_basic_correct_C_lemma. Qed.
+Check solve_basic_correct_C : forall (M : matrix ACR) (b : list ACR),
+  wf M -> rows M = cols M -> length b = rows M -> 1 <= rows M ->
+  (exists N : nat -> nat -> ACR, left_inverse (rows M) N (ent M)) ->
+  exists x, solve_basic M b = Ok x /\ length x = rows M /\
+    (forall i, i < rows M -> mvprod (rows M) (ent M) (fun k => nth k x zero) i = nth i b zero) /\
+    (forall y, length y = rows M ->
+       (forall i, i < rows M -> mvprod (rows M) (ent M) (fun k => nth k y zero) i = nth i b zero) -> y = x).
+Print Assumptions solve_basic_correct_C.
+
+(* separator for the driver's parser of Print Assumptions output (an axiom list is followed by a closed block) *)
+Print Assumptions solve_basic_sound.
+
+(* The mechanism the property names ("the largest |a_ik| on or below the diagonal is swapped into the pivot
+   row"): over any arithmetic whose `ltb` is a strict weak order (OrdLaws of Proofs/SolvePivot.v; no field law
+   is needed) the pivot search returns a row of maximal magnitude in the scanned part of the column -- or, when
+   no magnitude there exceeds zero, its initial index 0 (the fall-back that solve_basic_panic_nonvacuous shows). *)
+Theorem pivot_rule_maximal : forall (A : Arith), OrdLaws A -> forall (m : matrix A) (col start : nat),
+  wf m -> col < cols m -> start <= rows m ->
+  exists p, max_abs_in_column m col start = Ok p /\
+    ((p = 0 /\ forall i, start <= i < rows m -> ltb zero (abs (ent m i col)) = false) \/
+     (start <= p < rows m /\ ltb zero (abs (ent m p col)) = true /\
+      forall i, start <= i < rows m -> ltb (abs (ent m p col)) (abs (ent m i col)) = false)).
+Proof. intros A OL m col start. exact (max_abs_maximal OL m col start). Qed.
+Check pivot_rule_maximal : forall (A : Arith), OrdLaws A -> forall (m : matrix A) (col start : nat),
+  wf m -> col < cols m -> start <= rows m ->
+  exists p, max_abs_in_column m col start = Ok p /\
+    ((p = 0 /\ forall i, start <= i < rows m -> ltb zero (abs (ent m i col)) = false) \/
+     (start <= p < rows m /\ ltb zero (abs (ent m p col)) = true /\
+      forall i, start <= i < rows m -> ltb (abs (ent m p col)) (abs (ent m i col)) = false)).
+Print Assumptions pivot_rule_maximal.
+
+Example pivot_rule_maximal_nonvacuous :
+  OrdLaws AQ /\ OrdLaws AR /\ wf M3 /\ 0 < cols M3 /\ 0 <= rows M3 /\ max_abs_in_column M3 0 0 = Ok 2.
+Proof.
+  split; [exact AQ_OrdLaws|]. split; [exact AR_OrdLaws|]. split; [reflexivity|].
+  split; [cbn; lia|]. split; [cbn; lia|]. vm_compute. reflexivity.
+Qed.
